@@ -132,3 +132,37 @@ package migration
 //@   modifies *
 //@   assigns migState, migErr, calls_Migrate, calls_Before, calls_WriteIntermediateState, calls_WriteSchemaMetadata, calls_BatchWrite, arg_Before_intermediateState, arg_Migrate_ctx, arg_Migrate_database, arg_Migrate_network, arg_Migrate_logger, arg_WriteIntermediateState_w, arg_WriteIntermediateState_migrationIndex, arg_WriteIntermediateState_state, arg_WriteSchemaMetadata_txn, arg_WriteSchemaMetadata_sm, calls_Set, arg_Set_index
 //@   ensures applied_only_when_recorded: calls_Set != old(calls_Set) ==> calls_WriteSchemaMetadata != old(calls_WriteSchemaMetadata)
+
+// ---- opening a database: nothing this binary lacks may have been applied OR STARTED ---------------
+// The schema metadata records what was applied (CurrentVersion) and what a run intended to apply
+// (LastTargetVersion, written before the first migration of a run starts). A binary is refused if
+// either holds a migration outside its own target: an applied one (downgrade), one it knows but has
+// disabled (opt-out, validateNoOptOut), or one a newer Juno has started and not finished - the
+// case that the code before the fix of defect F13 let through.
+//@ ghost var metaRead SchemaMetadata
+//@ ghost var targetRead SchemaVersion
+//@ ghost var metaErr error
+//@ func GetSchemaMetadata
+//@   trusted
+//@   sets metaRead = result0
+//@   sets metaErr = result1
+//@ func (*Registry).TargetVersion
+//@   trusted
+//@   sets targetRead = result
+//@ func (*Registry).OptionalMigrationFlags
+//@   trusted
+//@   ensures len(result) <= 64
+//@ func (*Registry).Entries
+//@   trusted
+//@ func validateNoVersionDowngrade
+//@   props C18
+//@   arith bv
+//@   ensures (result == nil) <==> (forall i uint8 :: i < 64 ==> (bitOf(current, i) ==> bitOf(target, i)))
+//@ func NewRunner
+//@   props C18
+//@   arith bv
+//@   nosafe
+//@   requires registry != nil
+//@   modifies *
+//@   assigns metaRead, metaErr, targetRead
+//@   ensures nothing_outside_the_target: result1 == nil && metaErr == nil ==> (forall i uint8 :: i < 64 ==> ((bitOf(metaRead.CurrentVersion, i) || bitOf(metaRead.LastTargetVersion, i)) ==> bitOf(targetRead, i)))
